@@ -1,6 +1,6 @@
 (* Proofs about the textual MIR codec model (TextOut.v, TextScan.v). *)
 From Coq Require Import List ZArith NArith Bool String Lia.
-From MirV Require Import Base.W64 Mir.Opcode C11.Tables C11.Ast C11.BinIO C10.TextOut C10.TextScan.
+From MirV Require Import Base.W64 Mir.Opcode C11.Tables C11.Ast C11.BinIO C11.BinIOProofs C10.TextOut C10.TextScan.
 Import ListNotations.
 Local Open Scope Z_scope.
 Local Notation length := List.length.
@@ -56,3 +56,161 @@ Section PrintNorm.
     now rewrite (flat_map_norm (p_item fF fD fLD) norm_item (mod_items m) p_item_norm).
   Qed.
 End PrintNorm.
+
+(* ---------------------------------------------------------------- strings: scan_string inverts MIR_output_str *)
+
+Lemma scan_out_char c : (c < 256)%N -> forall f tail acc,
+  scan_str (S f) (out_char c ++ tail) acc = scan_str f tail (c :: acc).
+Proof.
+  intros Hc f tail acc.
+  destruct c as [|p]; [reflexivity|].
+  do 8 (try destruct p as [p|p|]); try (exfalso; lia); reflexivity.
+Qed.
+
+Definition is_bytes (s : bytes) : Prop := Forall (fun c => (c < 256)%N) s.
+
+Lemma scan_str_out s : is_bytes s -> forall f tail acc, (length s < f)%nat ->
+  scan_str f (flat_map out_char s ++ 34%N :: tail) acc = Some (rev acc ++ s, tail).
+Proof.
+  induction s as [|c s IH]; intros Hb f tail acc Hf.
+  - destruct f; [cbn in Hf; lia|]. cbn. now rewrite app_nil_r.
+  - destruct f; [cbn in Hf; lia|]. inversion Hb as [|? ? Hc Hs]; subst.
+    cbn [flat_map]. rewrite <- app_assoc, scan_out_char by assumption.
+    rewrite IH by (try assumption; cbn in Hf; lia). cbn [rev]. now rewrite <- app_assoc.
+Qed.
+
+(* text_str_roundtrip at the level of scan_string: the bytes come back, any byte values *)
+Lemma scan_output_str s tail : is_bytes s ->
+  scan_str (S (length s)) (tl (output_str s) ++ tail) [] = Some (s, tail).
+Proof.
+  intros Hb. unfold output_str. cbn [app tl]. rewrite <- app_assoc. cbn [app].
+  now rewrite scan_str_out by (try assumption; lia).
+Qed.
+
+Lemma nul_terminate_idem s : nul_terminate (nul_terminate s) = nul_terminate s.
+Proof.
+  destruct s as [|c s]; [reflexivity|].
+  unfold nul_terminate at 2.
+  destruct (N.eqb (last (c :: s) 1%N) 0) eqn:E.
+  - unfold nul_terminate. now rewrite E.
+  - unfold nul_terminate. destruct ((c :: s) ++ [0%N]) as [|n l] eqn:E2; [destruct s; discriminate|].
+    rewrite <- E2, last_last, E. reflexivity.
+Qed.
+
+Lemma nul_terminate_fix s : s = [] \/ last s 1%N = 0%N -> nul_terminate s = s.
+Proof.
+  intros [->|H]; [reflexivity|]. unfold nul_terminate. destruct s; [reflexivity|]. now rewrite H.
+Qed.
+
+(* ---------------------------------------------------------------- integers: strtoul inverts "%ld"/"%lu" *)
+
+Ltac Zify.zify_post_hook ::= Z.div_mod_to_equations.
+
+Lemma digit_val_digit d : 0 <= d < 10 -> digit_val (digit_char d) = Some d.
+Proof.
+  intros H. unfold digit_char.
+  assert (E : d = 0 \/ d = 1 \/ d = 2 \/ d = 3 \/ d = 4 \/ d = 5 \/ d = 6 \/ d = 7 \/ d = 8 \/ d = 9) by lia.
+  repeat (destruct E as [E|E]); subst d; reflexivity.
+Qed.
+
+(* parsing the digits printed for z (with fuel for all of them) multiplies the accumulator by a power
+   of ten and adds z *)
+Lemma strtoul_dec_digits fuel : forall z tl acc, 0 <= z < 10 ^ Z.of_nat fuel ->
+  exists k, 0 <= k /\ strtoul_digits 10 (dec_digits fuel z tl) acc = strtoul_digits 10 tl (acc * 10 ^ k + z).
+Proof.
+  induction fuel as [|f IH]; intros z tl acc Hz.
+  - cbn in Hz. assert (z = 0) by lia. subst. exists 0. split; [lia|]. cbn [dec_digits]. f_equal. lia.
+  - cbn [dec_digits]. destruct (Z.ltb_spec z 10) as [Hs|Hl].
+    + exists 1. split; [lia|]. cbn [strtoul_digits]. rewrite digit_val_digit by lia.
+      destruct (Z.ltb_spec z 10); [|lia]. f_equal; lia.
+    + rewrite Nat2Z.inj_succ, Z.pow_succ_r in Hz by lia.
+      destruct (IH (z / 10) (digit_char (z mod 10) :: tl) acc ltac:(lia)) as [k [Hk E]].
+      exists (k + 1). split; [lia|]. rewrite E. cbn [strtoul_digits]. rewrite digit_val_digit by lia.
+      destruct (Z.ltb_spec (z mod 10) 10); [|lia]. f_equal.
+      rewrite Z.pow_add_r by lia. change (10 ^ 1) with 10. lia.
+Qed.
+
+Lemma pow10_log2 z : 0 <= z -> z < 10 ^ Z.of_nat (S (Z.to_nat (Z.log2 z))).
+Proof.
+  intros Hz. destruct (Z.eq_dec z 0) as [->|Hnz]; [cbn; lia|].
+  pose proof (Z.log2_spec z ltac:(lia)) as [_ Hu]. pose proof (Z.log2_nonneg z).
+  rewrite Nat2Z.inj_succ, Z2Nat.id by lia.
+  eapply Z.lt_le_trans; [exact Hu|]. apply Z.pow_le_mono_l. lia.
+Qed.
+
+Lemma strtoul_digits_p_nat z : 0 <= z -> strtoul_digits 10 (p_nat z) 0 = z.
+Proof.
+  intros Hz. unfold p_nat.
+  destruct (strtoul_dec_digits (S (Z.to_nat (Z.log2 z))) z [] 0) as [k [Hk E]]; [split; [lia | now apply pow10_log2]|].
+  rewrite E. cbn [strtoul_digits]. lia.
+Qed.
+
+(* the first character of a printed natural number is a digit, hence neither '-' nor '+' *)
+Lemma dec_digits_head fuel z tl : 0 <= z -> (0 < fuel)%nat ->
+  exists d r, dec_digits fuel z tl = d :: r /\ c_isdigit d = true.
+Proof.
+  revert z tl; induction fuel as [|f IH]; intros z tl Hz Hf; [lia|].
+  cbn [dec_digits]. destruct (Z.ltb_spec z 10).
+  - exists (digit_char z), tl. split; [reflexivity|].
+    unfold digit_char. assert (E : z = 0 \/ z = 1 \/ z = 2 \/ z = 3 \/ z = 4 \/ z = 5 \/ z = 6 \/ z = 7 \/ z = 8 \/ z = 9) by lia.
+    repeat (destruct E as [E|E]); subst z; reflexivity.
+  - destruct f as [|f'].
+    + cbn [dec_digits]. exists (digit_char (z mod 10)), tl. split; [reflexivity|].
+      unfold digit_char. assert (E : z mod 10 = 0 \/ z mod 10 = 1 \/ z mod 10 = 2 \/ z mod 10 = 3 \/ z mod 10 = 4 \/ z mod 10 = 5
+                                      \/ z mod 10 = 6 \/ z mod 10 = 7 \/ z mod 10 = 8 \/ z mod 10 = 9) by lia.
+      repeat (destruct E as [E|E]); rewrite E; reflexivity.
+    + apply IH; lia.
+Qed.
+
+Lemma strtoul_nosign base d r : d <> 45%N -> d <> 43%N ->
+  strtoul base (d :: r) = (let mag := strtoul_digits base (d :: r) 0 in if 2 ^ 64 <=? mag then 2 ^ 64 - 1 else mag).
+Proof.
+  intros Hm Hp. unfold strtoul. destruct d as [|p]; [reflexivity|].
+  do 6 (try destruct p as [p|p|]); try reflexivity; congruence.
+Qed.
+
+Lemma strtoul_p_nat u : in_u64 u -> strtoul 10 (p_nat u) = u.
+Proof.
+  intros [H0 H1].
+  destruct (dec_digits_head (S (Z.to_nat (Z.log2 u))) u [] H0 ltac:(lia)) as [d [r [E Hd]]].
+  assert (Hnm : d <> 45%N /\ d <> 43%N).
+  { unfold c_isdigit in Hd. apply andb_true_iff in Hd. destruct Hd as [Hd1 Hd2]. apply N.leb_le in Hd1. lia. }
+  destruct Hnm as [Hm Hp].
+  pose proof (strtoul_digits_p_nat u H0) as Ev.
+  unfold p_nat in *. rewrite E in *. rewrite strtoul_nosign by assumption. cbv zeta. rewrite Ev.
+  destruct (Z.leb_spec (2 ^ 64) u); lia.
+Qed.
+
+Lemma strtoul_p_int z : in_s64 z -> s64 (strtoul 10 (p_int z)) = z.
+Proof.
+  intros [H0 H1]. unfold p_int. destruct (Z.ltb_spec z 0) as [Hn|Hp].
+  - unfold strtoul. rewrite strtoul_digits_p_nat by lia.
+    destruct (Z.leb_spec (2 ^ 64) (- z)); [lia|].
+    replace (- - z) with z by lia. unfold s64, u64. rewrite swrap_uwrap by lia. apply swrap_id; [lia|].
+    unfold in_s. cbn. lia.
+  - rewrite strtoul_p_nat by (unfold in_u64; lia). apply swrap_id; [lia|]. unfold in_s. cbn. lia.
+Qed.
+
+(* an unsigned immediate is re-read as the INT with the same 64-bit pattern *)
+Lemma strtoul_p_nat_bits u : in_u64 u -> u64 (s64 (strtoul 10 (p_nat u))) = u.
+Proof.
+  intros H. rewrite strtoul_p_nat by assumption. unfold u64, s64. rewrite uwrap_swrap by lia.
+  apply uwrap_id. unfold in_u. destruct H. lia.
+Qed.
+
+(* ---------------------------------------------------------------- statements collected for Properties_C10 *)
+
+Lemma text_str_roundtrip_lemma s tail : is_bytes s ->
+  scan_str (S (length s)) (tl (output_str s) ++ tail) [] = Some (s, tail)
+  /\ nul_terminate (nul_terminate s) = nul_terminate s
+  /\ (s = [] \/ last s 1%N = 0%N -> nul_terminate s = s).
+Proof.
+  intros H. split; [now apply scan_output_str|]. split; [apply nul_terminate_idem | apply nul_terminate_fix].
+Qed.
+
+Lemma text_int_roundtrip_lemma :
+  (forall z, in_s64 z -> s64 (strtoul 10 (p_int z)) = z)
+  /\ (forall u, in_u64 u -> strtoul 10 (p_nat u) = u /\ u64 (s64 (strtoul 10 (p_nat u))) = u).
+Proof.
+  split; [exact strtoul_p_int|]. intros u H. split; [now apply strtoul_p_nat | now apply strtoul_p_nat_bits].
+Qed.
